@@ -11,6 +11,7 @@ SQLITE = "SQLite statement semantics of DESIGN.md 3.2 (rowid = max+1, unique ind
 PROPS = {
     "C01": {
         "gens": ["C01"],
+        "extra_props": ["SqlSem"],
         "rule": "random call sequences (insert/replace/remove/remove_all/fetch/fetch_all/count/scan, both kinds, colliding + exotic alphabets, several sequential sessions); non-trivial = the sequence produced at least one Duplicate, one NotFound, one successful replace and one filtered read; distinct = hash of the sequence",
         "assumptions": [SQLITE, "AEAD correctness (decryptability) of the entry encryption; key separation between profile keys"],
         "trusted_base": [],
@@ -39,6 +40,7 @@ PROPS = {
     },
     "C07": {
         "gens": ["C07"],
+        "extra_props": ["SqlSem"],
         "extra_engines": ["C07H"],
         "rule": "interleaved histories over up to 4 profile names with colliding record identities, create/remove/re-create, sessions on missing profiles, per-profile scans; non-trivial = >= 2 profiles hold records and a profile is removed and another created afterwards; distinct = hash",
         "assumptions": [SQLITE, "profile keys are independent (a row encrypted under one key neither matches nor decrypts under another)"],
@@ -52,6 +54,7 @@ PROPS = {
     },
     "C17": {
         "gens": ["C17"],
+        "extra_props": ["SqlSem"],
         "rule": "expiry offsets {none, -1h, -5s, 5s, 15s, 25s, 1d, ~1000y} x time moved in 10 s steps by rewriting stored timestamps (no read within 5 s of an expiry) x fetch/count/fetch_all/scan and follow-up insert/replace/remove/remove_all on the expired name; non-trivial = a record is read both before and after its expiry; distinct = hash",
         "assumptions": [SQLITE, "time is moved by rewriting items.expiry out of band, which is equivalent to the clock advancing by whole seconds"],
         "trusted_base": [],
